@@ -361,7 +361,7 @@ impl Area for Answers {
                     // Content-Length (and is not keep-alive)
                     if d == "close-delimited" && (has_cl || stream.context.keep_alive_backend) {
                         let class = if has_cl && !stream.context.keep_alive_backend {
-                            "F24-short-length-body-ended-by-eof-then-408".to_string()
+                            "eof-completes-short-length-body-then-408".to_string()
                         } else {
                             "close-delimited-outside-its-domain".to_string()
                         };
